@@ -315,6 +315,64 @@ def _inline_one(fn, blk, idx, h, serial, repo):
     _remap_refs(B2["elems"], caller_map)
     if B2.get("term"):
         _remap_refs(B2["term"], caller_map)
+    # `X = helper(..)` where every non-constant return of the helper hands back one of its locals V: in the copy V IS X (the
+    # object a constructor-like helper builds is the one the caller goes on to use, under the caller's name)
+    unify = None
+    try:
+        tgt = None
+        def at(r):
+            # references have been remapped already: the second half is block b2id (not yet in fn), the call is its element 0
+            if r[0] == b2id:
+                return B2["elems"][r[1]] if 0 <= r[1] < len(B2["elems"]) else None
+            return _get(fn, r)
+        for e in B2["elems"][1:]:
+            if e.get("cls") == "BinaryOperator" and e.get("op") == "=" and len(e.get("kids") or []) == 2 and e["kids"][0] is not None and e["kids"][1] is not None:
+                r = e["kids"][1]
+                hops = 0
+                while r is not None and not (r[0] == b2id and r[1] == 0) and hops < 4:
+                    x = at(r)
+                    r = x["kids"][0] if x is not None and x.get("cls") in ("ImplicitCastExpr", "CStyleCastExpr", "ParenExpr") and x.get("kids") else None
+                    hops += 1
+                if r is not None and r[0] == b2id and r[1] == 0:
+                    lx = at(e["kids"][0])
+                    if lx is not None and lx.get("cls") == "DeclRefExpr" and (lx.get("decl") or {}).get("kind") == "local":
+                        tgt = lx["decl"]
+                break
+        if tgt is not None and not void:
+            rvars = set()
+            okr = True
+            for hb in h["blocks"]:
+                for e in hb["elems"]:
+                    if e.get("cls") == "ReturnStmt" and e.get("kids") and e["kids"][0] is not None:
+                        x = hb["elems"][e["kids"][0][1]] if e["kids"][0][0] == hb["id"] else None
+                        hops = 0
+                        while x is not None and x.get("val") is None and x.get("cls") in ("ImplicitCastExpr", "CStyleCastExpr", "ParenExpr") and x.get("kids") and x["kids"][0] is not None and hops < 6:
+                            k0 = x["kids"][0]
+                            x = hb["elems"][k0[1]] if k0[0] == hb["id"] else None
+                            hops += 1
+                        if x is None:
+                            okr = False
+                        elif x.get("cls") == "DeclRefExpr" and (x.get("decl") or {}).get("kind") == "local":
+                            rvars.add(x["decl"]["id"])
+                        elif x.get("val") is None:
+                            okr = False
+            argvars = set()
+            for a in args:
+                stack = [a]
+                seen_a = 0
+                while stack and seen_a < 200:
+                    r = stack.pop()
+                    seen_a += 1
+                    x = _get(fn, r)
+                    if x is None:
+                        continue
+                    if x.get("cls") == "DeclRefExpr" and x.get("decl"):
+                        argvars.add(x["decl"].get("id"))
+                    stack.extend(k for k in (x.get("kids") or []) if k is not None)
+            if okr and len(rvars) == 1 and tgt.get("id") not in argvars:
+                unify = (list(rvars)[0], dict(tgt))
+    except Exception:
+        unify = None
     # ---- the copy ---------------------------------------------------------------------------------
     cline = call.get("iline") or _line(call)
     scale = (call.get("iscale") or 1.0) * 1e-4
@@ -372,11 +430,17 @@ def _inline_one(fn, blk, idx, h, serial, repo):
             if d and d.get("kind") in ("local", "param", "staticlocal") and "id" in d:
                 if d["id"] in newid:
                     e["decl"] = dict(d, id=newid[d["id"]], kind="local")
+                elif d.get("kind") == "local" and unify is not None and d["id"] == unify[0]:
+                    e["decl"] = dict(unify[1])
                 elif d.get("kind") == "local" and d["id"] != rid:
                     e["decl"] = dict(d, id=vbase + d["id"] % 90000)
             for dd in e.get("decls") or []:
                 if isinstance(dd, dict) and dd.get("kind") == "local" and "id" in dd:
-                    dd["id"] = vbase + dd["id"] % 90000
+                    if unify is not None and dd["id"] == unify[0]:
+                        dd["id"] = unify[1]["id"]
+                        dd["name"] = unify[1].get("name", dd.get("name"))
+                    else:
+                        dd["id"] = vbase + dd["id"] % 90000
             e["inlined"] = h["name"]
             e["iscale"] = scale
             # position for rules that order statements by source line: the call's line, then the helper's own order
